@@ -245,6 +245,7 @@ class Check:
                            "cases": [{"description": d, "replay": r} for d, r in items[:5]], "count": len(items)}, fh, indent=1, default=str)
             print("VIOLATION property=%s replay=%s signature=%s cases=%d :: %s" % (self.pid, path, sig, len(items), items[0][0][:300]), flush=True)
             rc = 1
+        self.extra["new_violation_signatures"] = {sig: len(items) for sig, items in sorted(seen.items())}
         cov = dict(self.extra)
         cov.update({
             "states": int(self.states), "transitions": int(self.transitions),
